@@ -1,6 +1,8 @@
 package checks
 
 import (
+	"bytes"
+	"encoding/hex"
 	"fmt"
 	"math/rand"
 	"reflect"
@@ -101,7 +103,58 @@ func plainDownlink(r *rand.Rand) ([]byte, string) {
 	}
 }
 
+// c10SpecialMAC: a MAC is 32 pseudo-random bits; 00000000 is as legitimate a value as any other, and no random history
+// will ever show it (2^-32 per message). One pre-computed vector (128-NIA2 / 128-NEA2, found by search once) is part of
+// every run: a protected AUTHENTICATION REQUEST at COUNT 3 whose NAS-MAC is 00000000, inside a short history.
+func c10SpecialMAC() (o fw.Outcome) {
+	kInt, kEnc := unhex("5a0f1c3e7b2d4968a1b0c9d8e7f60514"), unhex("c3a5e1f2079b8d6412fe34ab56cd7890")
+	autn, rnd := unhex("6d1f3a92c7e48000b4a15c0e9d27f386"), unhex("330045c483089c1c91e2d3c4b5a69788")
+	authReq := append(append(append([]byte{0x7e, 0x00, 0x56, 0x00, 0x02, 0x00, 0x00, 0x21}, rnd...), 0x20, 0x10), autn...)
+	o.Input = fmt.Sprintf("NIA2/NEA2 kint=%x kenc=%x: CONFIGURATION UPDATE COMMAND (COUNT 1, 2), AUTHENTICATION REQUEST with RAND %x (COUNT 3, NAS-MAC 00000000), CONFIGURATION UPDATE COMMAND (COUNT 4)", kInt, kEnc, rnd)
+	o.Digest, o.Nontrivial = fw.HashS("special-mac"), true
+	o.Tag("special-mac-value")
+	ue := tglib.NewRanUeContext("imsi-208930000000003", 1, 2, 2)
+	copy(ue.KnasInt[:], kInt)
+	copy(ue.KnasEnc[:], kEnc)
+	for count, plain := range [][]byte{nil, {0x7e, 0x00, 0x54}, {0x7e, 0x00, 0x54}, authReq, {0x7e, 0x00, 0x54}} {
+		if count == 0 {
+			continue
+		}
+		wire, err := sec.ProtectNAS(2, 2, kInt, kEnc, uint32(count), 1, 1, 2, true, plain)
+		if err != nil {
+			o.Inconcl("reference protect: %v", err)
+			return
+		}
+		if count == 3 && !bytes.Equal(wire[2:6], []byte{0, 0, 0, 0}) {
+			o.Inconcl("the stored vector no longer yields NAS-MAC 00000000 under the reference (got %x)", wire[2:6])
+			return
+		}
+		got, err := tglib.NASDecode(ue, 2, append([]byte(nil), wire...))
+		if err != nil || got == nil {
+			o.Fail("not-recovered", "message at COUNT %d (NAS-MAC %x) is not recovered: %v", count, wire[2:6], err)
+			return
+		}
+		back, err := got.PlainNasEncode()
+		if err != nil || !bytes.Equal(back, plain) {
+			o.Fail("not-recovered", "message at COUNT %d (NAS-MAC %x) is recovered as %x, the AMF protected %x", count, wire[2:6], back, plain)
+			return
+		}
+		if ue.DLCount.Get() != uint32(count) {
+			o.Fail("dl-count", "after the message at COUNT %d the UE's downlink COUNT is %#x", count, ue.DLCount.Get())
+			return
+		}
+		o.Count("messages", 1)
+	}
+	o.Count("special_mac_vectors", 1)
+	return
+}
+
+func unhex(s string) []byte { b, _ := hex.DecodeString(s); return b }
+
 func runC10(c *fw.Case) (o fw.Outcome) {
+	if c.Idx == 0 {
+		return c10SpecialMAC()
+	}
 	r := c.R
 	iAlg := uint8(1 + c.Idx%2)
 	cAlg := uint8((c.Idx / 2) % 3)
